@@ -25,6 +25,7 @@ type structFieldSet struct {
 
 type structDecoder struct {
 	fieldMap           map[string]*structFieldSet
+	foldedFieldMap     map[string]*structFieldSet // lower-cased name => first field with that name
 	fieldUniqueNameNum int
 	stringDecoder      *stringDecoder
 	structName         string
@@ -377,7 +378,8 @@ func decodeKey(d *structDecoder, buf []byte, cursor int64) (int64, *structFieldS
 	k := *(*string)(unsafe.Pointer(&key))
 	field, exists := d.fieldMap[k]
 	if !exists {
-		return cursor, nil, nil
+		// no exact match: field names match case-insensitively
+		return cursor, d.foldedFieldMap[strings.ToLower(k)], nil
 	}
 	return cursor, field, nil
 }
@@ -660,7 +662,12 @@ func decodeKeyStream(d *structDecoder, s *Stream) (*structFieldSet, string, erro
 		return nil, "", err
 	}
 	k := *(*string)(unsafe.Pointer(&key))
-	return d.fieldMap[k], k, nil
+	field, exists := d.fieldMap[k]
+	if !exists {
+		// no exact match: field names match case-insensitively
+		field = d.foldedFieldMap[strings.ToLower(k)]
+	}
+	return field, k, nil
 }
 
 func (d *structDecoder) DecodeStream(s *Stream, depth int64, p unsafe.Pointer) error {
